@@ -507,3 +507,9 @@ func (w *World) FlatPrecedesM(fn *ssa.Function, isA, isB func(ssa.Instruction) b
 	cut := &FlatCut{Matcher: m, Barrier: func(_ *FCtx, in ssa.Instruction) bool { return isA(in) && !isB(in) }}
 	return w.FlatReaches(root, nil, cut, func(p FPos) bool { return isB(p.In) }) == nil
 }
+
+// ArgSubst expresses e (in the terms of callee g's parameters) in the caller's terms at `call`.
+func (w *World) ArgSubst(call ssa.CallInstruction, g *ssa.Function, e *Expr) *Expr {
+	en := w.callEnv(g, call, nil)
+	return Subst(e, en.params)
+}
